@@ -27,7 +27,7 @@ def corpus():
 
 
 def generate(rng, tier):
-    n = 400 if tier == "quick" else 6000
+    n = 400 if tier == "quick" else 12000
     n_fresh = 10 if tier == "quick" else 60
     for k in range(n):
         nd = rng.choice([1, 2, 2, 3, 3, 4])
